@@ -30,7 +30,13 @@ RULE = (
     "sub-checks): max off-diagonal of the unit-diagonal metric > 0.1 at "
     "every grid point and cond_2(gamma) > 10; maths4: same on the "
     "equilibrated matrix; riemann: all three blocks non-zero; "
-    "safe_division: the divisor contains a zero.")
+    "safe_division: the divisor contains a zero. riemann_weyl_homogeneous: "
+    "constant fields (every finite difference vanishes), any vacuum/Lambda/T "
+    "combination: symmetries of the assembled Riemann and of both Weyl "
+    "branches to round-off. kinematic_parts: modulated fields with a fluid "
+    "moving through the slicing: theta_ab = sigma_ab + theta h_ab/3, sigma "
+    "trace-free w.r.t. h^ab and symmetric, omega antisymmetric, and the "
+    "metric read again after everything built from it.")
 ASSUMPTIONS = [
     "round-off rule |a-b| <= c*eps*kappa*scale with c = 256, evaluated at "
     "every grid point in the diagonally equilibrated frame (spatial index i "
